@@ -482,8 +482,23 @@ func NewTLSConn(c *sim.Ctx, r *Reader) *TLSConn {
 	return k
 }
 
+// PipeFile is a reader that also has Seek, ReadAt and Stat-less file manners -
+// an *os.File over a pipe, a socket or a terminal: Seek and ReadAt exist and
+// FAIL (ESPIPE), as they do on such files.
+type PipeFile struct{ R *Reader }
+
+func (f PipeFile) Read(p []byte) (int, error) { return f.R.Read(p) }
+func (f PipeFile) Seek(int64, int) (int64, error) {
+	return 0, &os.PathError{Op: "seek", Path: "|0", Err: syscall.ESPIPE}
+}
+func (f PipeFile) ReadAt([]byte, int64) (int, error) {
+	return 0, &os.PathError{Op: "read", Path: "|0", Err: syscall.ESPIPE}
+}
+
 func WrapReader(c *sim.Ctx, r *Reader) (io.Reader, string) {
-	switch c.T.Pick(6, 1, 1, 1, 1, 1, 1, 1, 1) {
+	switch c.T.Pick(6, 1, 1, 1, 1, 1, 1, 1, 1, 1) {
+	case 9:
+		return PipeFile{R: r}, "file over a pipe (Seek and ReadAt fail with ESPIPE)"
 	case 8:
 		return NewTLSConn(c, r), "TLS server connection (ConnectionState, addresses, deadlines)"
 	case 7:
